@@ -287,8 +287,63 @@ fn check_brakedown(c: &PCase, ctx: &mut CaseCtx) -> Result<(), Failure> {
     check_proof_generic::<Brakedown>(&keys, poly, c.point.to_vec(nv), c.pre, 128, ctx)
 }
 
+#[derive(Clone, Debug, Serialize, Deserialize)]
+pub struct GuardCase {
+    pub rho_inv: usize,
+    pub multilinear: bool,
+}
+
+/// Ligero's field-size rule: parameters whose inverse rate exceeds the field's two-adicity (32 for the
+/// scalar field used here) are unusable and must be refused by trim; the others are served and report the
+/// capacity 4^(two_adicity - rho_inv) (saturating).
+fn check_field_guard(c: &GuardCase, ctx: &mut CaseCtx) -> Result<(), Failure> {
+    use ark_ff::FftField;
+    use ark_poly_commit::PCUniversalParams;
+    let two_adicity = <Fr as FftField>::TWO_ADICITY as usize;
+    let usable = c.rho_inv <= two_adicity;
+    ctx.nontrivial_if(c.rho_inv.abs_diff(two_adicity) <= 2 || !usable);
+    ctx.label(if usable { "usable" } else { "unusable_parameters" });
+    let pp = LigeroParams::new(128, c.rho_inv, true, (), (), ());
+    // 0 = keys, 1 = Err, 2 = abort
+    let outcome = |o: &Out<()>| match o {
+        Out::Ok(_) => 0,
+        Out::Err(_) => 1,
+        Out::Abort(_) => 2,
+    };
+    let o = if c.multilinear { guard(|| MLigeroPC::trim(&pp, 0, 0, None).map(|_| ())) } else { guard(|| ULigeroPC::trim(&pp, 0, 0, None).map(|_| ())) };
+    let served = outcome(&o) == 0;
+    ctx.check(served == usable, sig(P, "ligero", "trim", if served { "unusable_parameters_served" } else { "usable_parameters_refused" }), || {
+        format!("rho_inv = {}, two-adicity {two_adicity}: trim {}", c.rho_inv, if served { "returned keys" } else { "refused" })
+    })?;
+    // this rule is *reported as an error* (InvalidParameters) on this tree, not left to an arithmetic abort
+    ctx.check(usable || outcome(&o) == 1, sig(P, "ligero", "trim", "unusable_parameters_abort_instead_of_error"), || {
+        format!("rho_inv = {}, two-adicity {two_adicity}: trim {}", c.rho_inv, o.describe())
+    })?;
+    if usable {
+        let e = (two_adicity - c.rho_inv) * 2;
+        let want = if e < 64 { 1usize << e } else { usize::MAX };
+        let got = guard_plain(|| PCUniversalParams::max_degree(&pp));
+        ctx.check(matches!(got, Out::Ok(x) if x == want), sig(P, "ligero", "params", "max_degree_report"), || format!("rho_inv = {}: max_degree() = {}, expected {want}", c.rho_inv, got.describe()))?;
+    }
+    Ok(())
+}
+
 pub fn spec() -> PropertySpec {
     let mut units: Vec<Box<dyn Unit>> = Vec::new();
+    units.push(EnumUnit::new(
+        "C13:ligero:field-size-guard",
+        2,
+        |_tier: Tier, _seed: u64| {
+            let mut v = Vec::new();
+            for r in (2..=40usize).chain([48, 63, 64, 65, 100, 128, 1000, 1 << 20]) {
+                for multilinear in [false, true] {
+                    v.push(GuardCase { rho_inv: r, multilinear });
+                }
+            }
+            v
+        },
+        check_field_guard,
+    ));
     units.push(EnumUnit::new(
         "C13:ligero:t-thresholds",
         8,
@@ -319,7 +374,7 @@ pub fn spec() -> PropertySpec {
     units.push(PropUnit::new("C13:brakedown:proof-columns", 120, 1200, 4, |_| pcase().boxed(), check_brakedown));
     PropertySpec {
         id: "C13",
-        rule: "(a) For every lambda in 1..=256 and rate 1/rho_inv, rho_inv in {2,3,4,8,16}: the exact t (smallest t with 2(1-d/2)^t + n/|F| <= 2^-lambda, big-integer arithmetic, capped at n) fixes the polynomial length L_k = t*4^k/2 at which Ligero's compute_dimensions must switch from 2^k to 2^(k+1) rows; the library's public compute_dimensions is compared with the harness's own (exact t, integer square root) at L_k and L_k+1 for k in {1,4,8} (thorough: k = 1..12 plus random offsets), lengths up to 2^41, so a t that is off by one at any lambda/rate changes a row count; combinations for which no t exists must abort. (b) Generated honest proofs (univariate Ligero up to degree 2500, multilinear Ligero up to 11 variables, lambda in 1..=256, five rates, with/without well-formedness; Brakedown default parameters up to 10 variables): |columns| = |paths| = exact t for the codeword length in the commitment metadata, every leaf index inside the codeword, and the harness's reference verifier (own Fiat-Shamir index derivation: ceil(bits(n)/8) bytes squeezed, re-absorbed, reduced mod n; by-hand Merkle authentication; column checks) accepts. (b') the library verifier rejects the honest proof once authentication paths, columns or both are cut to 0, t/2, t-1 or a generated count below t. (c) E(a x + b y) = a E(x) + b E(y) on random and sparse messages of the row length, |E(x)| = declared n_ext_cols. Non-trivial: t below the codeword length (uncapped), or a message whose length is not a power of two.",
+        rule: "(a) For every lambda in 1..=256 and rate 1/rho_inv, rho_inv in {2,3,4,8,16}: the exact t (smallest t with 2(1-d/2)^t + n/|F| <= 2^-lambda, big-integer arithmetic, capped at n) fixes the polynomial length L_k = t*4^k/2 at which Ligero's compute_dimensions must switch from 2^k to 2^(k+1) rows; the library's public compute_dimensions is compared with the harness's own (exact t, integer square root) at L_k and L_k+1 for k in {1,4,8} (thorough: k = 1..12 plus random offsets), lengths up to 2^41, so a t that is off by one at any lambda/rate changes a row count; combinations for which no t exists must abort. (b) Generated honest proofs (univariate Ligero up to degree 2500, multilinear Ligero up to 11 variables, lambda in 1..=256, five rates, with/without well-formedness; Brakedown default parameters up to 10 variables): |columns| = |paths| = exact t for the codeword length in the commitment metadata, every leaf index inside the codeword, and the harness's reference verifier (own Fiat-Shamir index derivation: ceil(bits(n)/8) bytes squeezed, re-absorbed, reduced mod n; by-hand Merkle authentication; column checks) accepts. (a') Ligero's field-size rule, enumerated for rho_inv in 2..=40 and a few larger values, univariate and multilinear: trim serves exactly the parameters with rho_inv <= two-adicity of the field and reports the capacity 4^(two_adicity - rho_inv). (b') the library verifier rejects the honest proof once authentication paths, columns or both are cut to 0, t/2, t-1 or a generated count below t. (c) E(a x + b y) = a E(x) + b E(y) on random and sparse messages of the row length, |E(x)| = declared n_ext_cols. Non-trivial: t below the codeword length (uncapped), or a message whose length is not a power of two.",
         assumptions: vec![
             "calculate_t is reached only through the public surface (compute_dimensions, proofs)",
             "a disagreement explained only by the library using 2^MODULUS_BIT_SIZE for |F| gets its own signature (field_size_approximation)",
